@@ -8,7 +8,20 @@ def gen_share():
     core.write_if_changed(core.GEN / "GenShare.v", share.translate(core.PKG))
 
 
-ALL = [gen_share]
+def gen_tables():
+    from pyt2coq import tables
+    enums = tables.read_enums(core.PKG)
+    core.write_if_changed(core.GEN / "GenEnums.v", tables.enums_v(enums))
+    classes, singles = tables.read_structs(core.PKG)
+    core.write_if_changed(core.GEN / "GenStructs.v", tables.structs_v(classes, singles))
+    rows, others = tables.read_intrinsics(core.PKG)
+    instrs, kws = tables.read_ic10_json(core.REPO)
+    core.write_if_changed(core.GEN / "GenIntrinsics.v", tables.intrinsics_v(rows, others, instrs, kws))
+    return {"enums": enums, "classes": classes, "singles": singles, "intrinsics": rows,
+            "other_intrinsics": others, "instructions": instrs}
+
+
+ALL = [gen_share, gen_tables]
 
 
 def gen_all(strict=True):
